@@ -2,7 +2,9 @@ SPEC = {
     "id": "C06",
     "level": "other",
     "sidecars": ["fingerprint_url", "normalize_url"],
-    "functions": ["ural/fingerprint_url.py:strip_lang_subdomains_from_hostname", "ural/fingerprint_url.py:strip_lang_subdomain_from_hostname", "ural/fingerprint_url.py:lang_query_item_filter", "ural/normalize_url.py:should_strip_query_item"],
+    "functions": ["ural/fingerprint_url.py:strip_lang_subdomains_from_hostname", "ural/fingerprint_url.py:strip_lang_subdomain_from_hostname", "ural/fingerprint_url.py:lang_query_item_filter", "ural/normalize_url.py:should_strip_query_item",
+                  "ural/fingerprint_url.py:fingerprint_url", "ural/fingerprint_url.py:fingerprint_hostname"],
+    "function_sidecars": {"ural/fingerprint_url.py:fingerprint_url": ["fingerprint_url_main"], "ural/fingerprint_url.py:fingerprint_hostname": ["fingerprint_url_main"]},
     "bounded": ["bcheck.c06"],
     "explanation": (
         "Deciding step is BOUNDED: fingerprint_url(T(u)) == fingerprint_url(u) for case flips of every component, ports, ISO-3166 language labels "
@@ -10,7 +12,13 @@ SPEC = {
         "platform_aware, plus the negative clauses (non-codes and two-label hosts are NOT stripped) and 'no scheme / userinfo / port in the result'. "
         "Deductive extras discharged for all inputs by pyvc: strip_lang_subdomains_from_hostname never raises (both split(sep, 1) unpackings are "
         "guarded), removes exactly one leading label or nothing, only when more than one dot is present (at least two labels remain) and only a label "
-        "of length 2 or of length 5 containing '-'; lang_query_item_filter rejects exactly the gl / hl keys; should_strip_query_item keeps an item only if the caller's filter (here the gl / hl filter) accepted it, whatever per-domain filter exists."),
+        "of length 2 or of length 5 containing '-'; lang_query_item_filter rejects exactly the gl / hl keys; should_strip_query_item keeps an item only if the caller's filter (here the gl / hl filter) accepted it, whatever per-domain filter exists. "
+        "fingerprint_url itself is under a record-level contract (contracts/fingerprint_url_main.py; normalize_url, split_suffix, the label stripper as "
+        "uninterpreted total functions): for ALL inputs the record is SplitResult('', unsplit_netloc(user, password, host', None), lower(path), query', "
+        "lower(fragment)) of normalize_url(lower(url), unsplit=False, gl/hl filter, platform_aware): the scheme slot is empty and the port slot is None "
+        "('never carries a scheme or port'), path / fragment are lower-cased again after unquoting, the query is re-sorted exactly when lower-casing "
+        "changed it, host' = language labels stripped first, then (strip_suffix) the part before the public suffix unless the host is a bare suffix; what "
+        "normalize_url cannot parse is returned as given."),
     "assumptions": ["str.count(sub) > 0 <=> sub in s; sep in s => s.split(sep, 1) has exactly two pieces (library facts)",
                     "with platform_aware=True the platform parsers only rewrite their registered domains: negative and suffix clauses skip facebook / youtube hosts"],
     "trusted_base": ["pyvc + z3 for the extras", "bundled ISO-3166 set as the source of language labels"],
